@@ -782,3 +782,47 @@ def _comment_by_interpretation(ctx, comment: ClassInfo, tb: ClassInfo):
     run.add('C19.every-line', comment.module.name, 'Comment.__str__', f'{n} comments constructed and rendered', not bad,
             'whatever a comment is made of - strings, lists, text blocks with a header, comments - every rendered line starts with `//` '
             'or is blank' if not bad else '; '.join(bad[:3]))
+    # the helpers through which the generators pour a comment into a file (chunk / cond_chunk): what comes out is still a comment
+    bad2: List[str] = []
+    n2 = 0
+    try:
+        for fname, calls in (('chunk', [('content', {})]), ('cond_chunk', [('preamble', {'content': 'int y;', 'empty_response': None}),
+                                                                           ('content', {'preamble': None, 'empty_response': None}),
+                                                                           ('empty_response', {'preamble': None, 'content': None})])):
+            f = prog.modules['dznpy.text_gen'].functions.get(fname) if 'dznpy.text_gen' in prog.modules else None
+            if f is None:
+                continue
+            params = [a.arg for a in f.params()]
+            for pname, others in calls:
+                if pname not in params or any(k not in params for k in others):
+                    continue
+                for label, make in (('a comment', lambda it: it.construct(comment, [[code, '', '   indented']], {})),
+                                    ('a list holding a comment', lambda it: [it.construct(comment, [[code, 'b']], {})])):
+                    it = Interp(prog)
+                    it.MAX_STEPS = 2000000
+                    n2 += 1
+                    try:
+                        res = it.call_function(f, [], dict(others, **{pname: make(it)}))
+                        if res is None:
+                            bad2.append(f'{fname}({pname}={label}) yields nothing: the comment is dropped')
+                            continue
+                        m_str = prog.lookup_method(res.cls, '__str__') if isinstance(res, Obj) else None
+                        text = it.call_function(m_str, [], {}, self_val=res) if m_str is not None else None
+                    except Raised as exc:
+                        bad2.append(f'{fname}({pname}={label}) raises {exc.name.split(".")[-1]}')
+                        continue
+                    if not isinstance(text, str):
+                        raise Undecided(f'{fname} does not yield a text block')
+                    for ln in text.split('\n'):
+                        if code in ln and not ln.startswith('//'):
+                            bad2.append(f'{fname}({pname}={label}): the comment line {ln!r} is poured into the file as code (no `//`)')
+                            break
+                    if code not in text:
+                        bad2.append(f'{fname}({pname}={label}): the comment text is lost')
+    except Undecided as exc:
+        run.remark(f'C19: chunk / cond_chunk could not be interpreted ({exc})')
+        return
+    if n2:
+        run.add('C19.every-line', 'dznpy.text_gen', 'chunk', f'{n2} comments poured through chunk / cond_chunk', not bad2,
+                'a comment poured into a chunk (alone or inside a list; as content, preamble or empty response) stays a comment: every line of it '
+                'starts with `//`' if not bad2 else '; '.join(bad2[:3]))
